@@ -27,3 +27,6 @@ ASSUMPTIONS = [
     "cells with no sample assigned are not compared (0/0 in the library)",
     "per-channel delays are those the library reports (C09)",
 ]
+
+# dimensions added in seeded rounds 6 and 7
+PROBES = list(PROBES) + ["integer-arguments-as-numpy-scalars"]
